@@ -371,7 +371,7 @@ func scenC19(run *vlab.Run, sx, tmp string) {
 		res := RunCase(sx, spec)
 		run.Eval(1)
 		desc := map[string]interface{}{"argv": args, "per_pass": perPass, "sigint_mid_pass": midPass}
-		if !baseChecks(run, res, desc, true) {
+		if !baseChecks(run, res, desc, false) { // the exit status after an interrupt is not part of the statement
 			continue
 		}
 		if res.Drops > 0 {
